@@ -13,7 +13,6 @@
 (assert (forall ((a Bytes)) (! (noZero (bech32 a)) :pattern ((bech32 a)))))
 ; big-endian encodings are injective on their range
 (assert (forall ((x Int) (y Int)) (! (=> (and (<= 0 x) (< x 18446744073709551616) (<= 0 y) (< y 18446744073709551616) (= (be64 x) (be64 y))) (= x y)) :pattern ((be64 x) (be64 y)))))
-(assert (forall ((a Bytes) (b Bytes)) (! (=> (= (bech32 a) (bech32 b)) (= a b)) :pattern ((bech32 a) (bech32 b)))))
 ; parts of a concatenation, triggered by an existing byte term of the part
 (assert (forall ((p Bytes) (a Bytes) (i Int)) (! (=> (and (<= 0 i) (< i (blen a))) (= (bat a i) (bat (bconcat p a) (+ (blen p) i)))) :pattern ((bconcat p a) (bat a i)))))
 (assert (forall ((a Bytes) (q Bytes) (i Int)) (! (=> (and (<= 0 i) (< i (blen a))) (= (bat a i) (bat (bconcat a q) i))) :pattern ((bconcat a q) (bat a i)))))
